@@ -385,7 +385,10 @@ func (s *solutionImpl) addInitialSolution(m Model) error {
 		)
 
 		infeasiblePlanUnits := map[SolutionPlanUnit]bool{}
-		allPlanUnits := map[SolutionPlanUnit]bool{}
+		// The plan units of the initial stops in the order of the initial stops,
+		// ranging over a map would book them in a different order on every run.
+		allPlanUnits := make(SolutionPlanUnits, 0, len(planUnits))
+		isInAllPlanUnits := map[SolutionPlanUnit]bool{}
 
 	PlanUnitLoop:
 		for _, planUnit := range planUnits {
@@ -393,7 +396,10 @@ func (s *solutionImpl) addInitialSolution(m Model) error {
 			previousStop := solutionVehicle.First()
 
 			solutionPlanUnit := s.unwrapRootPlanUnit(planUnit)
-			allPlanUnits[solutionPlanUnit] = true
+			if !isInAllPlanUnits[solutionPlanUnit] {
+				isInAllPlanUnits[solutionPlanUnit] = true
+				allPlanUnits = append(allPlanUnits, solutionPlanUnit)
+			}
 
 		ModelStopLoop:
 			for modelStopIdx, modelStop := range initialModelStops {
@@ -545,7 +551,7 @@ func (s *solutionImpl) addInitialSolution(m Model) error {
 			infeasiblePlanUnits[s.unwrapRootPlanUnit(s.stopToPlanUnit[index])] = true
 		}
 
-		for solutionPlanUnit := range allPlanUnits {
+		for _, solutionPlanUnit := range allPlanUnits {
 			if _, ok := infeasiblePlanUnits[solutionPlanUnit]; ok {
 				continue
 			}
